@@ -10,7 +10,8 @@ EXPLANATION = (
     "scene it was called for (exactly once on every path, never a scene-less skip) and stamps candidates with that "
     "scene and epoch, attribute updates copy scene_id, the idle lookup compares scene ids and reads the epoch of "
     "the track's own scene, and a batch job's result tuple carries the job's own scene id. "
-    "(R04.5) in the batch VisualSORT the exclusively-owned-area shares are computed inside the per-scene loop from that scene's boxes only; (R04.6) scenes voted in parallel draw ids from one counter under one write-lock acquisition (a clash makes add_track fail inside a voting thread and the scene is not tracked); (R04.4) scene_id is written only by the attribute update.")
+    "(R04.5) in the batch VisualSORT the exclusively-owned-area shares are computed inside the per-scene loop from that scene's boxes only; (R04.6) scenes voted in parallel draw ids from one counter under one write-lock acquisition (a clash makes add_track fail inside a voting thread and the scene is not tracked); (R04.4) scene_id is written only by the attribute update. "
+    "(R04.7) the idle listing of every tracker excludes Ok(Wasted) tracks, so what a scene reports does not depend on the collection timing driven by other scenes' calls.")
 NOT_DECIDED = ["non-interference of whole runs as a two-run comparison", "the shared auto-waste counter (GC timing is "
                "covered by C03 R03.4: observers do not depend on it)"]
 ASSUMPTIONS = ["rustc nightly MIR construction", "Track::distances is the only path to the metric (checked in C02 R02.4)"]
@@ -32,6 +33,8 @@ def run(ctx):
     ctx.floor('R04.2', n, 29)
     ctx.rule('R04.5', 'batch VisualSORT: own-area shares are computed per scene, from that scene\'s boxes only')
     ctx.floor('R04.5', own_area_per_scene(ctx, 'R04.5'), 2)
+    ctx.rule('R04.7', 'the idle listing of a scene excludes expired tracks whatever the (cross-scene) collection timing')
+    ctx.floor('R04.7', T.rule_observers(ctx, 'R04.7', parts=('idle',)), 8)
     ctx.rule('R04.6', 'scenes voted in parallel draw ids from one counter, atomically (a clash kills a scene\'s voting thread)')
     from props import C01
     C01.shared_counter(ctx, 'R04.6')
